@@ -301,6 +301,9 @@ def run_chains(run, exe, cases, stream):
         if not io[i].startswith("ok\t"):
             r["fault"] = io[i]
             continue
+        if io[i] == "ok\tskip":
+            r["skipped"] = True
+            continue
         s = sides.get(cf[1])
         if not s:
             raise CheckError("chain driver: no side record for case %s" % cf[1])
@@ -430,12 +433,12 @@ def check(run):
     exe, exe_chain = build_impl(run)
     quick = run.tier == "quick"
     csynth, cchain = corpus_cases()
-    cases, meta = gen_synth(run.rng, consts, 3000 if quick else 60000)
+    cases, meta = gen_synth(run.rng, consts, 3000 if quick else 200000)
     cases, meta, ncyclic = drop_cyclic(run, cases, meta)
     allcases = csynth + cases
     res = corr_stream(run, AREA, exe, allcases, spec_line=spec_line, stream="synthetic")
     nv = classify_synth(run, res, allcases, "synthetic")
-    chains, cmeta = gen_chains(run.rng, consts, 60 if quick else 1200)
+    chains, cmeta = gen_chains(run.rng, consts, 60 if quick else 3000)
     allchains = cchain + chains
     cres = run_chains(run, exe_chain, allchains, "chains")
     nvc, cmism = classify_chains(run, cres, "chains")
@@ -477,7 +480,7 @@ def check(run):
         "distribution": {"synthetic_cases": len(allcases), "synthetic_drops": sdrops, "synthetic_error_injected": sum(1 for m in meta if m["err"]),
                          "synthetic_wild": sum(1 for m in meta if m["wild"]), "synthetic_cyclic_tables_left_out": ncyclic, "synthetic_empty_comm": sum(1 for m in meta if m["empty_comm"]),
                          "chains": len(allchains), "chain_depths": depth_hist, "chain_argument_pairs": pairs, "chain_drops": drops,
-                         "orphan_chains": sum(1 for m in cmeta if m["mode"] == "orphan"), "chains_with_empty_name": sum(1 for m in cmeta if m["empty_name"]),
+                         "orphan_chains": sum(1 for m in cmeta if m["mode"] == "orphan"), "chains_skipped": sum(1 for r in cres if r.get("skipped")), "chains_with_empty_name": sum(1 for m in cmeta if m["empty_name"]),
                          "kernel_stat_entries_checked_against_render_stat": sum(1 for r in cres if "truth" in r for _ in r["truth"].split(";")),
                          "parse_vs_comm_status_disagreements": len(parse_bad), "kernel": kver,
                          "corpus_cases": len(csynth) + len(cchain), "mismatches": len(res["mismatch"]) + len(cmism),
